@@ -18,6 +18,7 @@ COLS_THEOREMS = ["Gv.Props.C08Cols." + n for n in [
     "distMatrix_replicate_eq_integer_weights", "distMatrix_scale_weights", "distMatrix_unit_weights",
     "distMatrix_function_of_pair_distances", "complement_preserves_classes", "complement_residue_code",
     "estimators_strand_symmetric", "distMatrix_complement", "distMatrix_reverse_complement",
+    "internal_gaps_reversal_invariant", "distMatrix_reverse_columns", "distMatrix_reverse_complement_all_modes",
     "revcompRows_is_ReverseComplement", "distMatrix_row_perm", "distance_symmetric",
     "internal_gaps_not_permutation_invariant", "internal_gaps_not_replication_invariant"]]
 COLS_LEVEL_TEXT = (
@@ -35,8 +36,10 @@ COLS_LEVEL_TEXT = (
     "(rawdist included), all weights multiplied by k != 0, explicit unit weights = no weights (every counting mode), "
     "complementing every residue (every counting mode: the complement keeps IUPAC compatibility, transitions and "
     "transversions and exchanges A<->G with C<->T and piA<->piT, piC<->piG, under which TN93/F84/F81 as written in the "
-    "source are symmetric), reverse complement (modes 0 and 2; tied to the C06 model of ReverseComplement), and row "
-    "permutation (m'[i][j] = m[q i][q j], half-matrix mode, every counting mode: Distance is symmetric over the reals and "
+    "source are symmetric), reverse complement (modes 0 and 2 for any real weights; EVERY counting mode, the "
+    "internal-gap one included, for non-negative weights: the internal-gap counter is shown to be a two-sided sum that "
+    "reads the same from both ends - leading and trailing gap runs are ignored alike; tied to the C06 model of "
+    "ReverseComplement), and row permutation (m'[i][j] = m[q i][q j], half-matrix mode, every counting mode: Distance is symmetric over the reals and "
     "the 2*max substitute only depends on the set of pair distances). The internal-gap mode (rawdist/pdist with "
     "countgapmut = 1, internal_gaps_exactly) is exempt from permutation/replication, and necessarily so: two DistMatrix "
     "evaluations of the model over R are machine-checked counterexamples (A-A/AAA: 1 vs AA-/AAA: 0; A-/AA: 0 vs two "
@@ -48,9 +51,8 @@ COLS_PARTIAL = [
     "first half: preconditions of the theorems = preconditions of dna.DistMatrix: rectangular alignment (all rows of one "
     "length) and, when weights are given, at least one weight per column (weights[i] panics otherwise); complement / "
     "reverse complement: every residue has an IUPAC code (otherwise DistMatrix returns an error on the original alignment)",
-    "first half: reverse complement in the internal-gap mode (countgapmut = 1) is proved for the complement step only "
-    "(distMatrix_complement, order of the columns kept); the reversal step in that mode (leading <-> trailing gap runs; "
-    "needs non-negative weights) is not proved - metamorphic pairs only",
+    "first half: reverse complement / column reversal in the internal-gap mode (countgapmut = 1) is proved for "
+    "non-negative weights only (math.Max of the two trailing sums); with a negative weight it is false in general",
     "first half: row permutation is proved for the half-matrix mode (no ranges: a range names row positions); over R the "
     "model's test `d == +Inf` reads `d = 1/0 = 0` (Lean's real division), so a zero distance takes the substitute branch "
     "of the real-valued assembly - the pair-level theorems and distMatrix_function_of_pair_distances (any interpretation "
